@@ -429,6 +429,10 @@ def run(ctx):
     import importlib
     importlib.import_module("rules.c05").scalar_operand_checked(db, rep, "D15-SCALAR-OPERAND-CHECKED")
 
+    # ---- D16: "bad numbers ... reports each problem as an error record": every conversion of a token into a number looks at
+    # how much of the token the conversion took
+    d16_numbers_checked(db, rep, pfuncs)
+
     # ---- D8: parser state never keeps a freed pointer ---------------------
     # (a freed parser/program field left in place is freed again by orc_parse_code / orc_program_free,
     #  or handed to the caller through orc_parse_get_init_function)
@@ -502,3 +506,48 @@ def d5(db, rep, tu):
             src_ok = "items" in unparse(n.c[1])
     rep.check(src_ok, "D5-R-TERM", where(pc), "errors-out-param-is-vector-items",
               "*errors is the OrcVector items array", "*errors no longer comes from an OrcVector: producer unknown")
+
+
+def d16_numbers_checked(db, rep, pfuncs, rule="D16-NUMBERS-CHECKED"):
+    """D16: a token that is converted with strtol/strtoul/strtoll/strtod (or the parser's own _strtoll) must be converted with an
+    end pointer, and that end pointer must be examined afterwards (compared, or dereferenced in a condition) on the way to
+    any use of the value; atoi-style conversions cannot report anything.  Otherwise `.source abc s1` or `align zz` is read
+    as 0 (or as its numeric prefix) without an error record."""
+    CONV = {"strtol": 1, "strtoul": 1, "strtoll": 1, "strtoull": 1, "_strtoll": 1, "strtod": 1, "strtof": 1}
+    BLIND = ("atoi", "atol", "atoll", "atof")
+    n = 0
+    for f in pfuncs:
+        for c in f.calls():
+            if c.name not in CONV and c.name not in BLIND:
+                continue
+            a = c.args()
+            if not a:
+                continue
+            src = strip_casts(a[0])
+            tok = any(y.k == "MemberExpr" and y.name == "tokens" for y in src.walk()) or (src.k == "DeclRefExpr" and src.get("dk") == "param")
+            if not tok:
+                continue
+            n += 1
+            rep.saw(f)
+            bad = None
+            if c.name in BLIND:
+                bad = "%s () cannot tell a number from anything else" % c.name
+            else:
+                e = strip_casts(a[CONV[c.name]]) if len(a) > CONV[c.name] else None
+                if e is None or e.v == 0 or e.k != "UnaryOperator" or e.op != "&":
+                    bad = "the end pointer argument is `%s`" % (unparse(a[CONV[c.name]])[:20] if len(a) > CONV[c.name] else "missing")
+                else:
+                    ev = access_path(e.c[0])
+                    used = False
+                    for blk in f.blocks.values():
+                        if blk.cond is not None and any(y.k == "DeclRefExpr" and y.name == ev for y in blk.cond.walk()):
+                            used = True
+                    if not used:
+                        bad = "the end pointer `%s` is never examined" % ev
+            rep.check(bad is None, rule, where(f), "%s(%s)@%s" % (c.name, unparse(src)[:30], c.line),
+                      "the conversion reports how much of the token it took and the handler looks at it",
+                      "%s converts the token `%s` with %s, but %s: a token that is not a number (`.source abc s1`, `align zz`, `.n mult q`) is taken as 0 "
+                      "or as its numeric prefix and no error record is produced" % (f.name, unparse(src)[:40], c.name, bad), line=c.line)
+    if n < 2:
+        raise AnalysisBroken("only %d token-to-number conversions found in orcparse.c" % n)
+    return n
